@@ -133,7 +133,8 @@ pub fn child(case_text: &str) {
     std::fs::write(&path, &content[..pre]).unwrap();
 
     let mut tables = sqlgrep::Tables::new();
-    let def = sqlgrep::parsing::parse("CREATE TABLE t('((?s:.*))' => x TEXT);").unwrap();
+    let defs = match case["tdef"].as_str() { Some(t) => crate::sql::table_defs(t), None => "CREATE TABLE t('((?s:.*))' => x TEXT);".to_string() };
+    let def = sqlgrep::parsing::parse(&defs).unwrap();
     tables.add_tables(def);
     let stmt = sqlgrep::parsing::parse(case["query"].as_str().unwrap_or("SELECT x FROM t")).unwrap();
     let hist = parse_hist(&case);
@@ -298,4 +299,63 @@ pub fn trace(seed: u64, n: usize) -> Vec<J> {
     }
     cleanup_scratch();
     events
+}
+
+
+// ---------------------------------------------------------------------------------------------
+// Engine.tla, mode "follow": statements through the real FollowFileExecutor (child process, stdout captured).
+// All lines are in the file from the start (--head); the hook stops the executor at the first retry.
+pub fn replay_engine_follow(cases: &[J]) -> J {
+    let mut rep = Report::new("engine-follow");
+    let exe = std::env::current_exe().unwrap();
+    for case in cases {
+        tick(case);
+        let lines: Vec<&J> = case["files"].as_array().unwrap().iter().flat_map(|f| f.as_array().unwrap().iter()).collect();
+        let mut content = Vec::new();
+        for l in &lines { content.extend(crate::sql::line_text(l).into_bytes()); content.push(b'\n'); }
+        let query = crate::sql::statement(&case["q"], "");
+        let child_case = json!({"content": jbytes(&content), "pre": content.len(), "head": true, "cap": 8192, "hist": [{"e": "S", "n": 0}],
+                                "delivered": [], "failed": false, "tdef": case["tdef"], "query": query});
+        let out = std::process::Command::new(&exe).env("TZ", "UTC").arg("follow-child").arg(child_case.to_string()).output().unwrap();
+        let stdout = String::from_utf8_lossy(&out.stdout).to_string();
+        let ended_ok = stdout.contains("\u{1}END ok");
+        let ended_err = stdout.contains("\u{1}END err");
+        // tables of an aggregate statement are preceded by the clear-screen escape
+        let is_agg = case["q"]["kind"] == "agg";
+        // the clear-screen escape is printed without a line break: make it a line of its own, then drop the marker lines
+        let cleaned = stdout.replace("\u{1b}[2J\u{1b}[1;1H", "\n\u{2}\n");
+        let body: String = cleaned.lines().filter(|l| !l.starts_with('\u{1}')).collect::<Vec<_>>().join("\n");
+        let chunks: Vec<&str> = if is_agg { body.split('\u{2}').skip(1).collect() } else { vec![body.as_str()] };
+        let decode = |chunk: &str| -> Vec<J> { chunk.lines().filter(|l| !l.trim().is_empty() && *l != "\u{2}").map(|l| serde_json::from_str::<J>(l).unwrap_or(json!({"unparsable": l}))).collect() };
+        let observed_tables: Vec<Vec<J>> = chunks.iter().map(|c| decode(c)).collect();
+        // expected: the steps that show something
+        let steps = case["steps"].as_array().unwrap();
+        let exp_status = case["status"].as_str().unwrap();
+        let names: Vec<&str> = case["cols"].as_array().unwrap().iter().map(|c| c.as_str().unwrap()).collect();
+        let to_recs = |rows: &J| -> Option<Vec<J>> {
+            let mut v = Vec::new();
+            for r in rows.as_array().unwrap() { let mut m = serde_json::Map::new(); for (i, x) in r.as_array().unwrap().iter().enumerate() { m.insert(names[i].to_string(), crate::val::expected_json(x)?); } v.push(J::Object(m)); }
+            Some(v)
+        };
+        let eq = |a: &Vec<J>, b: &Vec<J>| a.len() == b.len() && a.iter().zip(b.iter()).all(|(x, y)| match (x.as_object(), y.as_object()) {
+            (Some(x), Some(y)) => x.len() == y.len() && x.iter().zip(y.iter()).all(|((k1, v1), (k2, v2))| k1 == k2 && crate::val::json_eq(v1, v2)), _ => false });
+        let mut ok = out.status.code() == Some(0);
+        let mut why = String::new();
+        if exp_status == "unk" { ok = ok && (ended_ok || ended_err); }
+        else {
+            if exp_status == "ok" && !ended_ok { ok = false; why = "executor did not end with Ok".into(); }
+            if exp_status == "err" && !ended_err { ok = false; why = "executor did not report the error".into(); }
+            if is_agg {
+                let exp_tables: Vec<Vec<J>> = steps.iter().filter(|s| s["st"] == "ok").filter_map(|s| to_recs(&s["recs"])).collect();
+                if exp_tables.len() != observed_tables.len() || !exp_tables.iter().zip(observed_tables.iter()).all(|(a, b)| eq(b, a)) { ok = false; why = "tables differ".into(); }
+            } else {
+                let exp_flat: Vec<J> = to_recs(&case["printed"]).unwrap_or_default();
+                if !eq(&observed_tables[0], &exp_flat) { ok = false; why = "records differ".into(); }
+            }
+        }
+        if ok { rep.ok(case, case.to_string(), !case["printed"].as_array().unwrap().is_empty() || steps.iter().any(|s| !s["recs"].as_array().unwrap().is_empty())); }
+        else { rep.mismatch(case, json!({"steps": steps, "printed": case["printed"], "status": exp_status}), json!({"tables": observed_tables, "why": why, "query": query, "exit": out.status.code()}),
+                            "FollowFileExecutor differs from Engine.tla (mode follow)"); }
+    }
+    rep.finish()
 }
